@@ -541,3 +541,64 @@ def _(I, cls, args, kwargs):
     from pyvc.values import SObj
 
     return SObj(EVENT, {"flag": False}, tag="event")
+
+
+# ---------------------------------------------------------------------------
+# EZSP.__getattr__ (C10 "new commands raise immediately and write nothing to the port", C06): every NCP command
+# attribute is the gated _command of that name -- the code under analysis reaches NCP commands only this way, so the
+# real __getattr__ runs from its source at every such call site; this lemma states the routing on its own
+# ---------------------------------------------------------------------------
+async def issue_commands_by_attribute(ez, value_id):
+    await ez.nop()
+    return await ez.getValue(valueId=value_id)
+
+
+def gated_commands(fx):
+    return [(r[2], r[3]) for r in fx if r[0] == "call" and r[1] == "ezsp.command"]
+
+
+@contract("contracts.ezsp.issue_commands_by_attribute", props=["C10", "C06"])
+def _(c):
+    c.arg("ez", T.obj(ClassSpec("bellows.ezsp.EZSP", fields={**EZ.fields, "_protocol": T.obj(ClassSpec("bellows.ezsp.v8.EZSPv8", fields=dict(_seq=T.range(0, 255))))}, interference=["_callbacks"])))
+    c.arg("value_id", T.enum(t.EzspValueId))
+    c.raises("not_running", EzspError)
+    c.raises("timeout", TimeoutError)
+    c.raises("cancelled", asyncio.CancelledError)
+    c.ensures(
+        "post.every_command_attribute_is_the_gated_command_of_that_name",
+        lambda value_id, fx: gated_commands(fx) == [(("nop",), {}), (("getValue",), {"valueId": value_id})],
+    )
+    c.ensures(
+        "post.gate_first_on_failure_too",
+        lambda value_id, fx: gated_commands(fx) in ([(("nop",), {})], [(("nop",), {}), (("getValue",), {"valueId": value_id})]),
+        on="raise",
+    )
+    # nothing reaches the protocol handler or the link except through the gate
+    c.ensures(
+        "post.no_ungated_path",
+        lambda fx: all(not (r[0].startswith("protocol.") or r[0].startswith("gw.")) for r in fx),
+        on="any",
+    )
+
+
+# the state a new EZSP object starts in (C10: "_callbacks: more than the built-in one means an application is attached";
+# C17: stack-status events reach the listeners through the built-in callback; commands are refused until bring-up)
+def new_ezsp(device_config):
+    return ezsp.EZSP(device_config)
+
+
+@contract("contracts.ezsp.new_ezsp", props=["C10", "C17", "C09"])
+def _(c):
+    c.arg("device_config", T.opaque)
+    c.ensures(
+        "post.initial_state",
+        lambda result, device_config: result._gw is None
+        and result._protocol is None
+        and result._ezsp_version == 4
+        and not result._ezsp_event.is_set(),
+    )
+    c.ensures(
+        "post.only_the_builtin_stack_status_callback",
+        lambda result: len(result._callbacks) == 1
+        and all(cb.__func__ is ezsp.EZSP.stack_status_callback and cb.__self__ is result for cb in result._callbacks.values()),
+    )
